@@ -73,23 +73,23 @@ Walk(c, out, i, st) ==
     IF op = "header" THEN
          IF st.status = "error" THEN <<"exc-state">> \o Walk(c, out, i + 1, st)
          ELSE IF ~st.hdrValid THEN <<"hdr">> \o Walk(c, out, i + 1, st)
-         ELSE IF HeaderFails(c) THEN <<"exc-pipe">> \o Walk(c, out, i + 1, [st EXCEPT !.status = "error", !.hdrValid = FALSE])
-         ELSE <<"hdr">> \o Walk(c, out, i + 1, [st EXCEPT !.hdrValid = FALSE])
+         ELSE IF HeaderFails(c) THEN <<"exc-pipe">> \o Walk(c, out, i + 1, TLCEval([st EXCEPT !.status = "error", !.hdrValid = FALSE]))
+         ELSE <<"hdr">> \o Walk(c, out, i + 1, TLCEval([st EXCEPT !.hdrValid = FALSE]))
     ELSE IF op \in {"read", "readall"} THEN
          (* "readall" = read() until it returns something else than data: the script position only advances then *)
          LET ni == IF op = "readall" THEN i ELSE i + 1 IN
-         IF st.back # <<>> THEN <<Head(st.back)>> \o Walk(c, out, ni, [st EXCEPT !.back = Tail(st.back)])
+         IF st.back # <<>> THEN <<Head(st.back)>> \o Walk(c, out, ni, TLCEval([st EXCEPT !.back = Tail(st.back)]))
          ELSE IF st.status # "okay" THEN <<"exc-state">> \o Walk(c, out, i + 1, st)
          ELSE LET p == SkipEmpty(c, out, st.pos)
                   e == out[p] IN
               IF e.k = "blk" THEN <<BufName(e.n, 1)>> \o
                      Walk(c, out, ni, [st EXCEPT !.pos = p + 1,
                                                    !.back = [s \in 1..(Nest(c, e.n) - 1) |-> BufName(e.n, s + 1)]])
-              ELSE IF e.k = "exc" THEN <<"exc-pipe">> \o Walk(c, out, i + 1, [st EXCEPT !.status = "error", !.pos = p + 1])
-              ELSE <<"eod">> \o Walk(c, out, i + 1, [st EXCEPT !.status = "eof", !.pos = p + 1])
-    ELSE (* close *) <<"closed">> \o Walk(c, out, i + 1, [st EXCEPT !.status = "closed"])
+              ELSE IF e.k = "exc" THEN <<"exc-pipe">> \o Walk(c, out, i + 1, TLCEval([st EXCEPT !.status = "error", !.pos = p + 1]))
+              ELSE <<"eod">> \o Walk(c, out, i + 1, TLCEval([st EXCEPT !.status = "eof", !.pos = p + 1]))
+    ELSE (* close *) <<"closed">> \o Walk(c, out, i + 1, TLCEval([st EXCEPT !.status = "closed"]))
 
-Expected(c) == Walk(c, OutStream(c), 1, [status |-> "okay", pos |-> 1, back |-> <<>>, hdrValid |-> TRUE])
+Expected(c) == Walk(c, TLCEval(OutStream(c)), 1, [status |-> "okay", pos |-> 1, back |-> <<>>, hdrValid |-> TRUE])
 
 -----------------------------------------------------------------------------
 (* I-layer *)
